@@ -17,6 +17,7 @@ type Param struct {
 }
 
 type Clause struct {
+	Ordinal int // atreturn#k: only the k-th return statement (source order, 1-based); 0 = every successful return
 	Label string
 	Text  string
 	Expr  Expr
@@ -197,7 +198,7 @@ func (cs *Contracts) ParseFile(path, pkgName string) error {
 	var stmts []rawLine
 	for _, l := range lines {
 		first := l.text
-		if k := strings.IndexAny(first, " \t(:"); k >= 0 {
+		if k := strings.IndexAny(first, " \t(:#"); k >= 0 {
 			first = first[:k]
 		}
 		if clauseKeywords[first] || len(stmts) == 0 {
@@ -233,6 +234,11 @@ func (cs *Contracts) ParseFile(path, pkgName string) error {
 		if k := strings.IndexAny(t, " \t"); k >= 0 {
 			kw = t[:k]
 			rest = strings.TrimSpace(t[k:])
+		}
+		retOrd := 0
+		if strings.HasPrefix(kw, "atreturn#") {
+			retOrd, _ = strconv.Atoi(kw[len("atreturn#"):])
+			kw = "atreturn"
 		}
 		switch kw {
 		case "func":
@@ -353,6 +359,7 @@ func (cs *Contracts) ParseFile(path, pkgName string) error {
 			if curF == nil {
 				return fail(l, "atreturn outside func")
 			}
+			c.Ordinal = retOrd
 			curF.AtReturn = append(curF.AtReturn, c)
 			curLoop = nil
 		case "loop":
